@@ -352,8 +352,9 @@ Definition iso_from_bytes (bs : bytes) : option iso :=
 
 (* ------------------------------------------------------------------ helpers for the correspondence check *)
 (* deterministic test pattern so that 64 KiB payloads need no 64 KiB literal *)
-Definition pattern (n : nat) (a b : Z) : bytes := map (fun i => (a * Z.of_nat i + b) mod 256) (seq 0 n).
-Definition digest (bs : bytes) : Z := fold_left (fun acc b => (acc * 31 + b + 1) mod 1000000007) bs 0.
+Fixpoint pattern (n : nat) (a b : Z) : bytes :=      (* byte i is (a * i + b) mod 256 *)
+  match n with O => [] | S k => b mod 256 :: pattern k a (b + a) end.
+Definition digest (bs : bytes) : Z := fold_left (fun acc b => Z.land (acc * 31 + b + 1) 1073741823) bs 0.
 Definition acl_sum (p : acl) := (a_handle p, a_pb p, a_bc p, a_len p, (blen (a_data p), digest (a_data p))).
 Definition ev_sum (e : asm_ev) : Z * Z * Z :=
   match e with Deliver p => (0, blen p, digest p) | _ => (ev_code e, 0, 0) end.
